@@ -244,11 +244,20 @@ def check(ctx, case):
         # (b) same names at load time instead == at save time
         if ln or case["mode"] in ("load", "both"):
             expect = prune(x, set(sn) | set(ln), types)
-            y2 = _load(ctx, case, p1, _skip_arg(list(ln), case["form"]))
+            reused = _skip_arg(list(ln), case["form"])
+            y2 = _load(ctx, case, p1, reused)
             df = gg.diff(expect, y2)
             if df:
                 raise core.Violation("load(save(x, skip=N1), skip=N2) != prune(x, N1|N2) [N1=%r N2=%r]: %s" % (sn, ln, df), case)
             p2 = _save(ctx, case, x, d, "b", ())
+            if isinstance(reused, list):
+                # the caller's own list object, used a second time on a file that records no skip lists: exactly the
+                # names the caller wrote are skipped (seeded change C14-12: load() extended the caller's list in
+                # place with the lists recorded in the first file)
+                y2b = _load(ctx, case, p2, reused)
+                df = gg.diff(prune(x, set(ln), []), y2b)
+                if df:
+                    raise core.Violation("load(other_file, skip=L) with the list object L already passed to an earlier load() != prune(x, %r): %s" % (sorted(ln), df), case)
             y3 = _load(ctx, case, p2, _skip_arg(list(set(sn) | set(ln)), "list"))
             expect_names_only = prune(x, set(sn) | set(ln), [])
             df = gg.diff(expect_names_only, y3)
